@@ -8,6 +8,7 @@
 package main
 
 import (
+	"strconv"
 	"sort"
 	"bufio"
 	"bytes"
@@ -82,7 +83,7 @@ var wrongTypes = []jsArg{
 const b32 = "ABCDEFGHIJKLMNOPQRSTUVWXYZ234567"
 
 func genSecret(r *rng) (string, []byte) {
-	n := pick(r, []int{5, 10, 20, 20, 32, 64})
+	n := pick(r, []int{5, 10, 20, 20, 32, 64, 64, 63, 65, 128, 128, 127, 129, 200}) // incl. the hash block sizes and their neighbours
 	key := make([]byte, n)
 	for i := range key {
 		key[i] = byte(r.next())
@@ -191,6 +192,29 @@ func genOps(r *rng, n int) []op {
 		if i > 0 && r.intn(3) == 0 {
 			// history: the same secret as the previous call, with another hash / length (caches keyed on the secret only)
 			secret, key = lastSecret, lastKey
+		}
+		if i > 0 && r.intn(8) == 0 && lastSecret != "" {
+			// history: right after a call with a secret, a text that only LOOKS like it to a careless comparison — another
+			// letter case is the same key; a Unicode look-alike (Kelvin sign, long s, dotless i) is not a base32 text at all
+			b := []rune(lastSecret)
+			k := r.intn(len(b))
+			for j := 0; j < len(b); j++ {
+				c := b[(k+j)%len(b)]
+				var rep rune
+				switch c {
+				case 'K', 'k':
+					rep = '\u212a'
+				case 'S', 's':
+					rep = '\u017f'
+				case 'I', 'i':
+					rep = '\u0131'
+				}
+				if rep != 0 {
+					b[(k+j)%len(b)] = rep
+					break
+				}
+			}
+			secret, key = string(b), nil
 		}
 		lastSecret, lastKey = secret, key
 		ds, as := pick(r, digitsS), pick(r, algoS)
@@ -521,6 +545,14 @@ func mutCode(r *rng, code string) string {
 		return pick(r, []string{"+", "-", " "}) + code[1:]
 	case 4:
 		return pick(r, []string{"+", "0", "00"}) + code
+	case 6, 7: // the same number modulo 2^32 / 2^31 (a comparison of parsed values in a narrow integer type)
+		if v, err := strconv.ParseUint(code, 10, 64); err == nil {
+			w := v + uint64(pick(r, []uint64{1 << 32, 1 << 33, 1 << 31, 1<<32 - 1<<31}))
+			if t := strconv.FormatUint(w, 10); len(t) <= len(code) {
+				return strings.Repeat("0", len(code)-len(t)) + t
+			}
+		}
+		return code
 	case 5: // full-width / Arabic-Indic digit for the last character
 		return code[:len(code)-1] + pick(r, []string{"０", "٠", "x"})
 	}
